@@ -18,6 +18,7 @@ fn main() {
         "cursor-replay" => cursor::main(&args[2..]),
         "store-run" => store::main(&args[2..]),
         "conc-stress" => conc::main(&args[2..]),
+        "ingest-stress" => conc::ingest_stress(&args[2..]),
         "lru-replay" => sync_replay::lru(&args[2..]),
         "coalesce-stress" => sync_replay::coalesce(&args[2..]),
         "store-recover" => store::recover(&args[2..]),
